@@ -1,16 +1,25 @@
 #!/bin/bash
-# usage: tools/benign.sh <dir with *.diff>... : apply each behaviour-preserving patch to a scratch copy, run all quick checks, list alarms
+# usage: tools/benign.sh <patch.diff>... : apply each behaviour-preserving patch to a scratch copy, run all quick checks
+# (one process per patch, tools/runall.py), list alarms; details go to /tmp/benign_detail.log
 cd /verif
-ALL="C01 C02 C03 C04 C05 C06 C07 C08 C09 C10 C11 C12 C13 C14 C15 C16 C17 C18 C19 C20"
 for f in "$@"; do
   id=$(basename $f .diff)
   t=$(mktemp -d /tmp/bn.XXXXXX); mkdir -p $t/src; cp -r /repo/src/nanite $t/src/; cp -r /repo/docs $t/ 2>/dev/null; mkdir -p $t/tests; cp /repo/tests/*.py $t/tests/ 2>/dev/null
   if ! patch -s -p1 -d $t < $f >/dev/null 2>&1; then echo "$id: PATCH-DOES-NOT-APPLY"; rm -rf $t; continue; fi
-  al=""
-  for p in $ALL; do
-    out=$(NANITE_REPO=$t /venv/bin/python -m nanite_sa $p --no-evidence 2>&1); rc=$?
-    if [ $rc != 0 ]; then al="$al $p(rc$rc)"; echo "$out" | grep -v "^KNOWN\|^VIOLATION\|^\[C" | sed "s#$t/##g" | cut -c1-330 | sed "s/^/      $id $p: /" >> /tmp/benign_detail.log; fi
-  done
-  echo "$id:${al:- silent}"
+  NANITE_REPO=$t /venv/bin/python tools/runall.py | T=$t ID=$id /venv/bin/python -c '
+import sys, json, os
+al = []
+t, pid_ = os.environ["T"], os.environ["ID"]
+with open("/tmp/benign_detail.log", "a") as log:
+    for l in sys.stdin:
+        d = json.loads(l)
+        if d["rc"] != 0:
+            al.append("%s(rc%s)" % (d["pid"], d["rc"]))
+            for ln in d["out"].splitlines():
+                if ln.startswith(("KNOWN", "VIOLATION", "[C")):
+                    continue
+                log.write("      %s %s: %s\n" % (pid_, d["pid"], ln.replace(t + "/", "")[:330]))
+print("%s: %s" % (pid_, " ".join(al) if al else "silent"))
+'
   rm -rf $t
 done
